@@ -179,7 +179,10 @@ package q
 //@   safety C15
 //@   requires v != nil
 //@   loop 1 invariant carried: nEval >= 0 && implies(nEval == 0, input == input0) && implies(nEval > 0, input == last)
-//@   assigns everything
+// Evaluation may change documents and nodes (accessors can call any method),
+// not the query itself (statements, expressions, tokens): trusted frame.
+//@   assigns H.*, M.*, G.*, E.gedcom*, E.*gedcom*, E.string, E.byte, alloc
+//@   trustframe
 //@   ghost last iface
 //@   ghost nEval int = 0
 //@   oncall Expression.Evaluate check pipe: arg0 == expression && arg1 == engine && arg2 == input && len(arg3) == 0
